@@ -1,4 +1,5 @@
 import FlowRecordProofs.Lemmas.Sqlite
+import FlowRecordProofs.Lemmas.SqliteSessions
 /-!
 C18 — SQLite export keeps every record, independent of batch size.
 
@@ -303,6 +304,27 @@ theorem C18_one_table_per_type_partial {DT : Type} (E : Env DT) (b : Nat) (ops :
   · have := hrows w.1.name
     simpa [rowsOf, ht, optRows] using this
 
+/-- Several writer sessions on one database file (each closed before the next opens, a later session re-issuing the
+    DDL because it has seen no descriptor yet): what another connection sees at the end is the plain replay of the
+    writes of ALL sessions, whatever the batch size — nothing an earlier session stored is lost or duplicated when the
+    file is opened for writing again. -/
+theorem C18_sessions_replay {DT : Type} (E : Env DT) (b : Nat) (ss : List (List (Op DT)))
+    (hacc : accepted E.store [] (sessionWrites E ss) = true) :
+    (runSessions E (noWriter b) ss).committed = specTables E.store (sessionWrites E ss) :=
+  runSessions_committed E ss (noWriter b) hacc
+
+/-- Cutting a history into sessions changes nothing: sessions without an inner `close` store exactly what ONE writer
+    (of any batch size) stores for the concatenated history. -/
+theorem C18_sessions_like_one_writer {DT : Type} (E : Env DT) (b b' : Nat) (ss : List (List (Op DT)))
+    (hnc : ∀ ops ∈ ss, Op.close ∉ ops)
+    (hacc : accepted E.store [] (writesOf E ss.flatten) = true) :
+    (runSessions E (noWriter b) ss).committed = (run E (init b') (ss.flatten ++ [.close])).committed := by
+  have hw := flatMap_writesOf_of_no_close E ss hnc
+  rw [C18_sessions_replay E b ss (by rw [hw]; exact hacc), hw]
+  have h2 := (C18_close_complete E b' (ss.flatten ++ [.close]) ⟨ss.flatten, [], rfl⟩
+    (by rw [writesOf_append_close]; exact hacc)).1
+  rw [h2, writesOf_append_close]
+
 -- Non-vacuity: concrete histories meet the hypotheses and exercise batching, evolution and refusals.
 namespace C18_nonvacuous
 def E : Env Unit := { iso := fun _ => [50, 48], store := affinityStore }
@@ -331,4 +353,12 @@ example : reservedName [115, 113, 108, 105, 116, 101, 47, 112] = false := by dec
 example : accepted E.store [] (writesOf E [Op.write { name := [115, 113, 108, 105, 116, 101, 95, 120], fields := [([97], "string")] }
     [.none]]) = false := by decide
 example : SqliteLaws affinityStore := affinityStore_laws
+-- three sessions: the type gains a field in the second, the third adds a row of the first layout
+def sess : List (List (Op Unit)) :=
+  [[.write dA [.str [120], .int 1], .write dB [.datetime ()]], [.write dA2 [.str [119], .int 3, .bytes [0, 1]]],
+   [.write dA [.none, .int (2 ^ 63)], .write dA [.str [121], .int 2]]]
+example : accepted E.store [] (sessionWrites E sess) = true := by decide
+example : ∀ ops ∈ sess, Op.close ∉ ops := by decide
+example : ((runSessions E (noWriter 2) sess).committed.map (fun t => (t.name, colNames t, t.rows.length))) =
+    [([116, 47, 97], [[115], [110], [98]], 3), ([116, 47, 98], [[116, 115]], 1)] := by decide
 end C18_nonvacuous
